@@ -46,6 +46,10 @@ type Runner struct {
 	idleAdds map[int]bool
 	racing   bool        // oracle-only section: completions/evictions race with Reads in flight
 	verTotal map[int]int // successful verifications observed, per piece
+	avail    map[uint32]int
+	seeds    int
+	webCfg   bool // a web seed is configured
+	webOn    bool // … and enabled by the last configuration change
 	asyncs   []*asyncOp
 	fuseH    map[int]*fuseHandle
 	fuseR    map[int]*fuseRead
@@ -95,7 +99,19 @@ type sigCtx struct {
 	context.Context
 	r       *tor.Reader
 	entered chan (<-chan struct{})
+	errs    atomic.Int64 // calls of Err(): Read checks its context once per pass of its loop
 }
+
+// Err counts: a Read that goes round its loop thousands of times without returning or
+// parking is spinning.
+func (c *sigCtx) Err() error {
+	c.errs.Add(1)
+	return c.Context.Err()
+}
+
+// spinLimit: passes of Read's loop within one call before the harness calls it a spin (a
+// legitimate retry happens once per eviction or stale notification).
+const spinLimit = 20000
 
 // Done runs on the reader's goroutine: r.ch is the channel the select is about to wait on.
 func (c *sigCtx) Done() <-chan struct{} {
@@ -116,7 +132,7 @@ var Aborted atomic.Bool
 
 func NewRunner() *Runner {
 	return &Runner{readers: map[int]*RState{}, holds: map[[2]int]int{}, Tags: map[string]int{},
-		Watchdog: 15 * time.Second, idleAdds: map[int]bool{}}
+		Watchdog: 15 * time.Second, idleAdds: map[int]bool{}, avail: map[uint32]int{}}
 }
 
 func (ru *Runner) violate(kind, detail string) {
@@ -198,8 +214,24 @@ func (ru *Runner) settle(rs *RState) string {
 	// ever returning (busy loop) must trip the watchdog too
 	deadline := time.NewTimer(ru.Watchdog)
 	defer deadline.Stop()
+	tick := time.NewTicker(20 * time.Millisecond)
+	defer tick.Stop()
 	for {
 		select {
+		case <-tick.C:
+			if rs.ctx.errs.Load() > spinLimit {
+				ru.violate("hang:read:spin", fmt.Sprintf("Read of reader %d (window (%d,%d), position %d, len %d) went round its loop more than %d times without returning or parking", rs.rid, rs.offset, rs.length, rs.pos, rs.pend.n, spinLimit))
+				// its context is the only way out of the loop
+				rs.cancel()
+				rs.cancelled = true
+				select {
+				case <-rs.pend.res:
+				case <-time.After(5 * time.Second):
+				}
+				rs.pend = nil
+				rs.closed = true
+				return "spin"
+			}
 		case x := <-rs.pend.res:
 			return ru.finishRead(rs, x)
 		case ch := <-rs.ctx.entered:
@@ -511,41 +543,46 @@ func atoi(s string) (int64, bool) {
 // ParseLayout: "s:<len>" single file, "m:<len>,<len>,…" multi-file; optional suffixes
 // "@lo-hi" (sparse torrent: only pieces lo..hi have real hashes) and "+p" (fake peer).
 func ParseLayout(l string) ([]File, bool, bool) {
-	fs, single, _, _, _, ok := ParseLayoutOpt(l)
+	fs, single, _, _, _, _, ok := ParseLayoutOpt(l)
 	return fs, single, ok
 }
 
-func ParseLayoutOpt(l string) (fs []File, single bool, lo, hi int, fake bool, ok bool) {
+func ParseLayoutOpt(l string) (fs []File, single bool, lo, hi int, fake bool, web bool, ok bool) {
 	hi = -1
-	if strings.HasSuffix(l, "+p") {
-		fake = true
-		l = strings.TrimSuffix(l, "+p")
+	for strings.HasSuffix(l, "+p") || strings.HasSuffix(l, "+w") {
+		if strings.HasSuffix(l, "+p") {
+			fake = true
+			l = strings.TrimSuffix(l, "+p")
+		} else {
+			web = true
+			l = strings.TrimSuffix(l, "+w")
+		}
 	}
 	if k := strings.IndexByte(l, '@'); k >= 0 {
 		var a, b int
 		if n, err := fmt.Sscanf(l[k+1:], "%d-%d", &a, &b); n != 2 || err != nil || a < 0 || b < a {
-			return nil, false, 0, -1, false, false
+			return nil, false, 0, -1, false, false, false
 		}
 		lo, hi = a, b
 		l = l[:k]
 	}
 	if len(l) < 3 || l[1] != ':' {
-		return nil, false, 0, -1, false, false
+		return nil, false, 0, -1, false, false, false
 	}
 	for i, p := range strings.Split(l[2:], ",") {
 		v, ok := atoi(p)
 		if !ok || v < 0 {
-			return nil, false, 0, -1, false, false
+			return nil, false, 0, -1, false, false, false
 		}
 		fs = append(fs, File{Name: fmt.Sprintf("d%d/f%d", i%2, i), Length: v})
 	}
 	switch l[0] {
 	case 's':
-		return fs, true, lo, hi, fake, len(fs) == 1
+		return fs, true, lo, hi, fake, web, len(fs) == 1
 	case 'm':
-		return fs, false, lo, hi, fake, true
+		return fs, false, lo, hi, fake, web, true
 	}
-	return nil, false, 0, -1, false, false
+	return nil, false, 0, -1, false, false, false
 }
 
 // Close kills the torrent of the runner (end of case).
@@ -596,7 +633,7 @@ func (ru *Runner) Exec(op string) bool {
 		total, ok2 := atoi(ws[3])
 		salt, ok3 := atoi(ws[4])
 		rate, ok4 := atoi(ws[5])
-		files, single, lo, hi, fake, ok5 := ParseLayoutOpt(ws[6])
+		files, single, lo, hi, fake, web, ok5 := ParseLayoutOpt(ws[6])
 		if !(ok1 && ok2 && ok3 && ok4 && ok5) || ps <= 0 || ps%16384 != 0 || total <= 0 {
 			return bad()
 		}
@@ -625,12 +662,13 @@ func (ru *Runner) Exec(op string) bool {
 		if hi >= 0 && int64(hi) >= (total+ps-1)/ps {
 			return bad()
 		}
-		s, err := NewOpt(name, uint32(salt), uint32(ps), files, single, lo, hi, fake)
+		s, err := NewOpt2(name, uint32(salt), uint32(ps), files, single, lo, hi, fake, web)
 		if err != nil {
 			ru.emit(op, "err "+strings.ReplaceAll(err.Error(), " ", "_"))
 			return true
 		}
 		ru.S, ru.Salt, ru.Rate, ru.Files, ru.Single = s, uint32(salt), int(rate), files, single
+		ru.webCfg = web
 		ru.complete = make([]bool, s.N)
 		ru.everOK = make([]bool, s.N)
 		ru.emit(op, fmt.Sprintf("ok n=%d", s.N))
@@ -729,6 +767,7 @@ func (ru *Runner) Exec(op string) bool {
 		buf := make([]byte, n)
 		res := make(chan readRes, 1)
 		rs.pend = &pendRead{int(n), buf, res}
+		rs.ctx.errs.Store(0)
 		go func() {
 			var k int
 			var err error
@@ -995,8 +1034,15 @@ func (ru *Runner) doHTTP(foff, flen, a, b int64) string {
 		return "nofile"
 	}
 	srv := httptest.NewServer(storhttp.VerifMux())
-	defer srv.Close()
-	req, _ := http.NewRequest("GET", srv.URL+"/"+ru.S.HashString()+"/"+name, nil)
+	hctx, hcancel := context.WithCancel(context.Background())
+	defer func() {
+		// never wait for a handler that may be stuck: cancel the request (the handler's
+		// reader aborts through r.Context()), drop the connections, close in the background
+		hcancel()
+		srv.CloseClientConnections()
+		go srv.Close()
+	}()
+	req, _ := http.NewRequestWithContext(hctx, "GET", srv.URL+"/"+ru.S.HashString()+"/"+name, nil)
 	req.Header.Set("Range", fmt.Sprintf("bytes=%d-%d", a, b))
 	type hres struct {
 		status int
